@@ -350,6 +350,7 @@ template <class Ring> struct PolyRun {
     // polyseq <type> <p> <seed> <preset> <op>...    ONE destination polynomial reused for a sequence of draws, degrees going up and down.
     //   op = form letter + degree:  D random(g,r,Degree) Z random(g,r) S random(g,r,size) L random(g,r,b)   d z s l: the nonzerorandom forms
     //        I<d> : Poly1Dom::RandIter (GIV_randIter<Poly1Dom>) built with seed+3 and sampling size d+1, drawn into the same destination
+//        J<d> : the same through operator= : a used RandIter of sampling size 1 is assigned that iterator, then draws; its source draws the same
     //   prints "deg size ; coefficients" after EVERY step, separated by " / ", then "| state"
     static std::string seq_once(const Ring& F, uint64_t seed, int how, const Args& ops) {
         PD D(F, Indeter("X"));
@@ -364,6 +365,16 @@ template <class Ring> struct PolyRun {
                 typedef typename PD::RandIter PRI;
                 PRI it(D, (seed + 3) ? seed + 3 : 3, (typename PRI::Residu_t) (d + 1));
                 if (k % 2) it.random(r); else it(r);
+            }
+            else if (f == 'J') {        // a RandIter of sampling size 1 (other seed, used) is ASSIGNED one of sampling size d+1: degree d expected
+                typedef typename PD::RandIter PRI;
+                PRI src(D, (seed + 3) ? seed + 3 : 3, (typename PRI::Residu_t) (d + 1));
+                PRI dst(D, (seed + 5) ? seed + 5 : 5, (typename PRI::Residu_t) 1);
+                { P t; dst.random(t); }
+                dst = src;
+                dst.random(r);
+                P chk; src.random(chk);
+                if (chk != r) return "ASSIGNED-DIFFERS";
             }
             else if (!draw(D, g, r, f, d)) return "UNKNOWN-OP";
             if (k) o << " / ";
@@ -436,15 +447,17 @@ static std::string riiseq_f(void* c) {
     return riiseq_once<false, false>(x->seed, x->ss, x->ops);
 }
 
-// ringseq <type> <p> <seed> <size> <ops>    ops: a string over  r c v R (the four draw forms of Ring::RandIter)
+// ringseq <type> <p> <seed> <size> <ops> [size2]    ops: a string over  r c v R (the four draw forms of Ring::RandIter)
 //        n m (NonZeroRandIter random(a) / operator()(a) on top of the current iterator)  C (copy, go on with the copy)
-//        A (another iterator with seed+17 draws once, is assigned the current one, go on with it)
+//        A (another iterator -- other ring object (modulus 3, or 5), sampling size size2, seed+17 -- draws once, is assigned the current one, go on with it)
+//        S (the current iterator is assigned to itself)
 template <class Ring> struct RingSeq {
     typedef typename Ring::Element E;
     typedef typename Ring::RandIter RI;
-    static std::string once(const Ring& F, uint64_t seed, const std::string& sz, const std::string& ops) {
+    static std::string once(const Ring& F, uint64_t seed, const std::string& sz, const std::string& ops, const std::string& sz2, const std::string& other_p) {
         typedef typename RI::Residu_t RR;
-        RR size = IO<RR>::parse(sz);
+        RR size = IO<RR>::parse(sz), size2 = IO<RR>::parse(sz2);
+        std::vector<std::unique_ptr<Ring> > others;          // the rings of the iterators that get assigned over (must outlive them)
         std::unique_ptr<RI> it(new RI(F, seed, size));
         std::unique_ptr<RI> shadow;            // the iterator the current one was copied / assigned from: must go on alike
         std::ostringstream o;
@@ -459,7 +472,16 @@ template <class Ring> struct RingSeq {
             else if (op == 'n') { GeneralRingNonZeroRandIter<Ring, RI> nz(*it); nz.random(r); }
             else if (op == 'm') { GeneralRingNonZeroRandIter<Ring, RI> nz(*it); GeneralRingNonZeroRandIter<Ring, RI> nz2(nz); nz2(r); }
             else if (op == 'C') { RI* n = new RI(*it); shadow.reset(it.release()); it.reset(n); continue; }
-            else if (op == 'A') { RI* n = new RI(F, (seed + 17) ? seed + 17 : 17, size); E t; F.init(t); n->random(t); if (!Assign<RI>::go(*n, *it)) { delete n; return "UNSUPPORTED"; } shadow.reset(it.release()); it.reset(n); continue; }
+            else if (op == 'A') {
+                // ASSIGNED over an iterator that differs in everything: another ring object (another modulus), another sampling size,
+                // another seed, already used; it must go on exactly like its source (same ring, same size, same stream)
+                others.push_back(std::unique_ptr<Ring>(Mk<Ring>::make(other_p)));
+                RI* n = new RI(*others.back(), (seed + 17) ? seed + 17 : 17, size2);
+                { E t; others.back()->init(t); n->random(t); }
+                if (!Assign<RI>::go(*n, *it)) { delete n; return "UNSUPPORTED"; }
+                shadow.reset(it.release()); it.reset(n); continue;
+            }
+            else if (op == 'S') { RI& self = *it; if (!Assign<RI>::go(*it, self)) return "UNSUPPORTED"; continue; }     // self-assignment: no effect
             else return "UNKNOWN-OP";
             o << rawshow<E>(r) << ":" << Val<Ring>::show(F, r) << (F.isZero(r) ? "z" : "");
             if (shadow) {
@@ -475,8 +497,9 @@ template <class Ring> struct RingSeq {
         if (a.size() < 4) return "BAD-LINE";
         static std::unique_ptr<Ring> cur; static std::string curp;
         if (!cur || curp != a[0]) { cur.reset(Mk<Ring>::make(a[0])); curp = a[0]; }
-        std::string s1 = once(*cur, pu64(a[1]), a[2], a[3]);
-        std::string s2 = once(*cur, pu64(a[1]), a[2], a[3]);
+        std::string sz2 = a.size() > 4 ? a[4] : a[2], other_p = (a[0] == "3") ? "5" : "3";
+        std::string s1 = once(*cur, pu64(a[1]), a[2], a[3], sz2, other_p);
+        std::string s2 = once(*cur, pu64(a[1]), a[2], a[3], sz2, other_p);
         if (s1 != s2) return "NONREPRO " + s1 + " || " + s2;
         return s1;
     }
